@@ -205,6 +205,18 @@ pub fn run(tier: Tier, rep: &mut Report) -> (String, String) {
             one_pair(r, h, n);
         }
     }));
+    // every char of the boundary-complete set as pattern / content
+    let cs: Vec<char> = if tier == Tier::Miri { char_set(tier).into_iter().step_by(15).collect() } else { char_set(tier) };
+    bounds += &format!("for every char c of the boundary-complete set ({}): inputs [c+a, a+c, c+c+a+c, c] x patterns [c, a, c+a, c+c]; ", cs.len());
+    rep.merge(par_each(&cs, th, |c, r| {
+        let hs = [format!("{c}a"), format!("a{c}"), format!("{c}{c}a{c}"), format!("{c}")];
+        let ns = [c.to_string(), "a".to_string(), format!("{c}a"), format!("{c}{c}")];
+        for h in &hs {
+            for n in &ns {
+                one_pair(r, h.as_bytes(), n.as_bytes());
+            }
+        }
+    }));
     // (b) whitespace: all byte strings of length <= 2 over all 256 values (complete byte coverage) ...
     let all: Vec<u8> = (0..=255u8).collect();
     let ws2 = bytes_over(&all, if tier == Tier::Miri { 1 } else { 2 });
